@@ -234,6 +234,7 @@ struct SeqEngine final : Engine {
       }
     }
     Rng fr = stream(seed, S_FAULT);
+    Rng lr = stream(seed, S_WORKLOAD + 80);
     for (int i = 0; i < nops; i++) {
       const int phase = i * nphases / nops;
       static const double ins_bias[] = {0.75, 0.25, 0.5};
@@ -285,6 +286,7 @@ struct SeqEngine final : Engine {
         } else if (y < 0.22) {
           o.kind = S_GET;
           o.key = r.chance(0.7) ? pick_present() : pick_absent();
+          if ((focus == 1 || focus == 16) && lr.chance(0.2)) o.c = 4;  // look / modify / look in straight-line code first
         } else if (y < 0.22 + 0.78 * pi) {
           o.kind = S_INSERT;
           o.key = r.chance(0.88) ? pick_absent() : pick_present();
@@ -328,7 +330,7 @@ struct SeqEngine final : Engine {
     switch (o.kind) {
       case S_INSERT: return "insert(" + hex(o.key) + ", value#" + std::to_string(o.a) + " len " + std::to_string(o.b) + ")" + t;
       case S_REMOVE: return "remove(" + hex(o.key) + ")" + t;
-      case S_GET: return "get(" + hex(o.key) + ")" + t;
+      case S_GET: return std::string((o.c & 4) ? "get / toggle / get / toggle back / get in straight-line code, then " : "") + "get(" + hex(o.key) + ")" + t;
       case S_EMPTY: return "empty()" + t;
       case S_CLEAR: return "clear()" + t;
       case S_SCAN: return std::string("scan(") + (o.a ? "fwd" : "rev") + (o.b > 0 ? ", halt after " + std::to_string(o.b) : "") + ")" + t;
@@ -368,7 +370,7 @@ struct SeqEngine final : Engine {
     st.bump("reach_prefix_split", o.splits);
     kinds += o.splits != 0;
     st.bump("scan_ranges_with_both_bounds_in_one_buffer", o.aliased_bounds);
-    st.bump("scans", o.scans); st.bump("scan_visits", o.scan_visits); st.bump("value_views_rechecked", o.views_checked);
+    st.bump("scans", o.scans); st.bump("scan_visits", o.scan_visits); st.bump("value_views_rechecked", o.views_checked); st.bump("look_modify_look_sequences", o.look_modify_look);
     st.bump("fault_points_tried", o.fault_points); st.bump("alloc_faults_delivered", o.faults_delivered); st.bump("length_errors_delivered", o.length_errors);
     static const char* dbn[] = {"histories_db", "histories_mutex_db", "histories_olc_db"};
     st.bump(dbn[c.knob("dbkind", 0) % 3]);
